@@ -330,6 +330,61 @@ class Body:
     def local_ty(self, l):
         return self.locals[l]["ty"]
 
+    # ---------------------------------------------------------------- maybe-init (rustc's analysis)
+    def maybe_init(self, bb):
+        """[(place, tracked own entries, has_tracked_child)] maybe-initialised before the
+        terminator of bb (only sampled at Yield/Drop/Return/Call terminators)."""
+        return self.rec.get("mi", {}).get(str(bb), [])
+
+    def held(self, bb, substr, include_arc=False):
+        """Leaf-most maybe-initialised move paths before bb's terminator that own (by value,
+        not through an Arc (`@arc`) or a closure/coroutine's captured state (`@fut`)) a
+        resource whose nominal path contains `substr`.  Paths through an enum variant that
+        the dominating discriminant switches exclude are dropped."""
+        out = []
+        for place, tracked, kids in self.maybe_init(bb):
+            hit = [t for t in tracked if substr in t and (include_arc or "@" not in t)]
+            if not hit:
+                continue
+            if kids:
+                # a tracked child path exists: the children speak for themselves
+                continue
+            if self._variant_excluded(bb, place):
+                continue
+            out.append((place, hit))
+        return out
+
+    def _variant_excluded(self, bb, place):
+        """place = base.(as Variant#i)...: True if bb is only reachable through a switch edge on
+        discriminant(base) that selects another variant."""
+        l, proj = place
+        for k, e in enumerate(proj):
+            if not e.startswith("d:"):
+                continue
+            idx = int(e.rsplit("#", 1)[1])
+            base = [l, proj[:k]]
+            for sb in self.live_blocks:
+                t = self.blocks[sb]["term"]
+                if t["k"] != "switch":
+                    continue
+                # discriminant read of exactly `base` feeding this switch
+                dl = op_local(t["op"])
+                defs = self.defs.get(dl, []) if dl is not None else []
+                if len(defs) != 1 or defs[0][1] != "assign":
+                    continue
+                rv = defs[0][2]["rv"]
+                if rv["k"] != "disc" or rv["pl"][0] != base[0] or list(rv["pl"][1]) != list(base[1]):
+                    continue
+                explicit = {int(v): tb for v, tb in t["targets"]}
+                for v, tb in list(explicit.items()) + [("otherwise", t["otherwise"])]:
+                    if v == idx:
+                        continue
+                    if v == "otherwise" and idx not in explicit:
+                        continue
+                    if tb != explicit.get(idx, None) and self.edge_dominates((sb, tb), bb) and bb in self.reachable([tb]):
+                        return True
+        return False
+
 
 def strip_generics(s):
     out, depth = [], 0
